@@ -76,7 +76,18 @@ code site AND another kind of trigger. Think about what a careful reviewer would
   - integer pitfalls: counts or indices held in a narrow or unsigned NumPy integer, Python int vs NumPy int semantics (overflow,
     negative indices, floor division, bool as int), off-by-one only when a length is a multiple of something;
   - control flow: a broadened or narrowed `except`, a `finally` that masks, an early `return`/`break`/`continue` in a loop,
-    a default argument evaluated once, a generator consumed twice, a dict/set whose iteration order is relied on.
+    a default argument evaluated once, a generator consumed twice, a dict/set whose iteration order is relied on;
+  - argument *kinds* the interface accepts but nobody tests: array subclasses (np.matrix, masked arrays, memory maps), 0-d
+    arrays and NumPy scalars where a Python number is expected, lists/tuples where arrays are expected, non-native byte order,
+    object dtype, arrays with negative strides or zero-length axes, read-only or overlapping views;
+  - boundary values of the hyper-parameters and shapes: the smallest series the interface allows (T == W, one stacked row per
+    series), N == 1, K close to the number of points, iteration_limit 1, min_cluster_size 1 or larger than any cluster,
+    beta or lambda exactly 0, huge (1e300) or denormal, num_processors larger than the number of clusters;
+  - interplay of two features that are each fine alone (a vector switching cost together with repopulation, a covariance floor
+    together with a matrix-valued sparsity weight, the joint front end together with the biased estimator, ...);
+  - state kept on an object or module between two phases of the SAME call (an attribute set in one phase and read in another,
+    a buffer reused across rounds, a cache that is invalidated one step too late or too early).
+  (Diagnostics that misbehave only under DEBUG logging have been used several times already: do not use the logging level.)
 
 Already used (do not repeat these mechanisms or their near variants):
 
